@@ -105,8 +105,8 @@ def ch_unwind(faces, quints, inner):
 
 
 PROPERTIES["C07"] = dict(
-    explanation="ancestor composition over all cells × all level pairs; children (count, distinct, resolution, ancestry, canonical, order) "
-                "for all cells with fan-out ≤ 16/20/60; every cell is listed exactly under its parent; children of children = children at the deeper level",
+    explanation="ancestor composition over all cells × all level pairs; children one level down (count, distinct, resolution, ancestry, canonical, order, = bit-level child rule) "
+                "for all cells of resolution ≥ 1; the world cell's 12 and 60; every cell of resolution ≥ 2 is listed exactly under its parent",
     assumptions=[VALID, FMT_STUB],
     trusted_base=["bit-level oracle spec_valid, proved equal to the real code by oracle_valid_equiv in the same run"],
     outside_claim=["per-call fan-out above 4 from a symbolic cell (12 and 60 from the concrete world cell are executed); two levels down in one call and the children of a *base* cell (5, 20) ran out of memory (36–45 GB) with a symbolic face and are not claimed by a dedicated harness — the 60 quintants are checked under their base cells through c07_world, deeper levels follow from composition (c07_compose)"],
@@ -127,9 +127,9 @@ PROPERTIES["C07"] = dict(
     ],
 )
 MANIFEST_TEXT["C07"] = dict(
-    level="bounded model checking of the compiled hierarchy functions: every statement is one SAT query over all valid cells (all faces, quintants, curve positions up to 2^56, all levels) with a symbolic pair of child indices; only the per-call fan-out is bounded (≤16/20/60)",
+    level="bounded model checking of the compiled hierarchy functions: every statement is one SAT query over all valid cells (all faces, quintants, curve positions up to 2^56, all levels) with a symbolic pair of child indices; per-call fan-out is 4 from a symbolic cell, 12 and 60 from the concrete world cell; deeper levels by composition",
     design_ref="DESIGN.md §5 C07",
-    note="trusted: Kani/CBMC/CaDiCaL; bit-level canonical-ID oracle is proved equal to the real codec in the same run; per-loop unwind bounds are checked by unwinding assertions; fan-out > 16 per call outside the claim",
+    note="trusted: Kani/CBMC/CaDiCaL; bit-level oracles are proved equal to the real codec in the same run; per-loop unwind bounds are checked by unwinding assertions; children of a base cell (5, 20) and two levels down in one call ran out of memory and are outside the claim",
     technique="Kani/CBMC bounded model checking (SAT) of the real cell_to_parent/cell_to_children over symbolic cells and symbolic child indices",
 )
 
@@ -380,9 +380,9 @@ PROPERTIES["C08"] = dict(
                ],
 )
 MANIFEST_TEXT["C08"] = dict(
-    level="bounded model checking of the real compact (whole function body) on every strictly increasing N-tuple of valid cells, with the witness cell at the finest level universally quantified — equality of expansions without expanding; N ≤ 3 quick, ≤ 5 thorough",
+    level="bounded model checking of the real compact (whole function body) on every set of N distinct valid cells of any resolutions, overlaps allowed, with the witness cell at the finest level universally quantified — equality of expansions without expanding; N ≤ 4 quick, ≤ 6 thorough; plus merge / no-false-merge of (near-)complete sibling groups and order/multiplicity for N = 2 with the real de-dup",
     design_ref="DESIGN.md §2.3, §5 C08",
-    note="guard on (Vec-backed set model); sort stub = identity on sorted input; get_resolution replaced by a loop-free form proved equal on all 2^64 inputs in the same run; order/multiplicity beyond N=2 trusts std",
+    note="guard on (Vec-backed set model, ASSUME_UNIQUE for distinct inputs); std's internal sort back end ↦ bounded insertion sort with the same contract; get_resolution and (in the m harnesses) cell_to_parent replaced by models proved equal to the real functions over the full input width in the same run; order/multiplicity beyond N=2 trusts std",
     technique="Kani/CBMC bounded model checking (SAT) of the real compact over symbolic sorted cell tuples with a universally quantified witness cell",
 )
 
@@ -413,7 +413,7 @@ PROPERTIES["C09"] = dict(
     ],
 )
 MANIFEST_TEXT["C09"] = dict(
-    level="bounded model checking of the real uncompact over all valid cells × targets with fan-out ≤ 12 per input and lists ≤ 2: equality with cell_to_children element-wise, input order, error iff an input is finer",
+    level="bounded model checking of the real uncompact: all valid cells × all targets in the fan-out-1 / error classes, the world class, and lists of three with fan-outs 1 and 4 (input order, total length, error iff any input is finer) with the callee cell_to_children replaced by a contract model proved on the real function in the same run",
     design_ref="DESIGN.md §5 C09",
     note="the one-level expansion with the *real* callee inside uncompact exceeds 45 GB (symbolic-size Vec allocation) and is not registered; it is covered compositionally: uncompact's own list logic is the real code, its callee cell_to_children is replaced by a contract model proved on the real function (c09_children_same, c07_children_d1) in the same run",
     technique="Kani/CBMC bounded model checking (SAT) of the real uncompact against the real cell_to_children on symbolic cells",
@@ -432,18 +432,19 @@ PROPERTIES["C10"] = dict(
                  unwindset=cmp_unwind(6), assumes=COMPACT_STUBS[1:], timeout=5400, mem_gb=45, mem_est=30),
                H("oracle_parent_equiv", "oracles", [Q, T], "∀ canonical x of resolution ≥ 0: cell_to_parent(x, None) = spec_parent1(x)", functions=HIER[:-1], bounds="none", exhaustive=True),
     ] + [
-               H(f"c10_max_{n}m", "c10", tiers, f"∀ non-overlapping set of {n} distinct valid cells (any resolutions 0..29), ∀ valid parent p: output never contains all children of p (cell_to_parent ↦ proved contract model)", functions=CMP[:4],
+               H(f"c10_max_{n}m", "c10", tiers, f"∀ non-overlapping set of {n} distinct valid cells (any resolutions 0..29), ∀ valid parent p: output never contains all children of p" + ("; output numerically sorted and non-overlapping" if n <= 4 else "") + " (cell_to_parent ↦ proved contract model)", functions=CMP[:4],
                  bounds=f"N={n}; passes ≤ {ps}", unwindset=cmp_unwind(n, ps), assumes=COMPACT_STUBS + [PARENT_MODEL], deps=CDEPS + ["oracle_parent_equiv"], timeout=to, mem_gb=mem, mem_est=est)
-               for n, tiers, ps, to, mem, est in [(4, [T], 2, 3600, 16, 6), (5, [Q, T], 2, 5400, 24, 10), (6, [T], 2, 7200, 30, 12), (7, [T], 3, 18000, 40, 20)]
+               for n, tiers, ps, to, mem, est in [(4, [Q, T], 2, 3600, 16, 6), (5, [Q, T], 2, 5400, 24, 10), (6, [T], 2, 7200, 30, 12), (7, ["deep"], 3, 18000, 40, 20)]
     ] + [
                H("c10_split_2m", "c10", [T], "∀ non-overlapping pair, ∀ i: replacing x[i] by its 4 children gives the same compacted vector (parent model)", functions=CMP[:4], bounds="2 → 5 cells", unwindset=cmp_unwind(5), assumes=COMPACT_STUBS + [PARENT_MODEL], deps=["oracle_child_equiv", "oracle_parent_equiv"], timeout=7200, mem_gb=45, mem_est=16),
                               H("c10_max_5_hi", "c10", [T], "N=5, resolutions ≥ 2, real cell_to_parent (integration of the modelled callee)", functions=CMP, bounds="N=5, r≥2", unwindset=cmp_unwind(5), assumes=COMPACT_STUBS, deps=CDEPS, timeout=7200, mem_gb=45, mem_est=26),
-               H("c10_split_1", "c10", [Q, T], "∀ valid x (r 1..28): compact(children of x) = compact([x])", functions=CMP, bounds="1 → 4 cells", unwindset=cmp_unwind(4), assumes=COMPACT_STUBS, deps=["oracle_child_equiv"], timeout=3600, mem_gb=30, mem_est=12),
+               H("c10_split_1m", "c10", [Q, T], "∀ valid x (r 1..28): compact(children of x) = compact([x]) (cell_to_parent ↦ proved contract model)", functions=CMP[:4], bounds="1 → 4 cells", unwindset=cmp_unwind(4), assumes=COMPACT_STUBS + [PARENT_MODEL], deps=["oracle_child_equiv", "oracle_parent_equiv"], timeout=2400, mem_gb=16, mem_est=6),
+               H("c10_split_1", "c10", [T], "∀ valid x (r 1..28): compact(children of x) = compact([x])", functions=CMP, bounds="1 → 4 cells", unwindset=cmp_unwind(4), assumes=COMPACT_STUBS, deps=["oracle_child_equiv"], timeout=3600, mem_gb=30, mem_est=12),
                ],
 )
 MANIFEST_TEXT["C10"] = dict(
-    level="bounded model checking of the real compact on every non-overlapping strictly increasing N-tuple (N ≤ 4–5): maximality via a universally quantified parent, idempotence, and invariance under one split move",
+    level="bounded model checking of the real compact on every non-overlapping set of N distinct cells of any resolutions (N ≤ 5 quick, ≤ 7 thorough — including base cells mixed with quintants and two-level cascades): maximality via a universally quantified parent, numeric sortedness, invariance under one split move; idempotence follows as a corollary within the bounds",
     design_ref="DESIGN.md §5 C08/C10",
-    note="N ≤ 5 for arbitrary sets; the low-resolution interleaving class (where the defect repaired by 8da9742 lived) is covered by the two-symbol harness c10_lowres_fg in the thorough tier; guard on, bounded sort stub, verified get_resolution stub",
+    note="guard on; sort back end ↦ bounded insertion sort; get_resolution and (m harnesses) cell_to_parent replaced by models proved equal to the real functions in the same run; one harness per class keeps the real callee; idempotence is not a separate harness (two calls exceed 45 GB) — see DESIGN §5",
     technique="Kani/CBMC bounded model checking (SAT) of the real compact over symbolic non-overlapping sorted cell tuples",
 )
